@@ -23,24 +23,10 @@ def c11_1(c: Ctx) -> None:
     H = c.an.fm.h
     esc = sorted(str(t) for t in c.an.escapes(eh) if H.is_sub(t.name, 'Exception') or (not t.exact and H.is_sub('Exception', t.name)))
     c.note(f'Exception-class escape set of execute_handler: {esc}')
+    from .c01 import check_handler_site
+
     for call in sites:
-        loop = q.enclosing(call, (ast.For, ast.AsyncFor))
-        if loop is None:
-            c.fail(u, 'execute_handler call outside a loop', 'handlers are not run one per loop iteration', node=call)
-            continue
-        if isinstance(parent(call), ast.Await):
-            check_handler_loop(c, u, g, loop, call, 'execute_handler')
-        else:
-            st = q.stmt_of(call)
-            if isinstance(st, ast.Assign) and isinstance(st.targets[0], ast.Name):
-                t = st.targets[0].id
-                stores = [n for n in ast.walk(loop) if isinstance(n, ast.Assign) and isinstance(n.targets[0], ast.Subscript) and t in {x.id for x in ast.walk(n.value) if isinstance(x, ast.Name)}]
-                if stores:
-                    d = U(stores[0].targets[0].value)
-                    for lp in [n for n in own_nodes_list(u) if isinstance(n, ast.For) and n is not loop and d in U(n.iter)]:
-                        aw = [x for x in ast.walk(lp) if isinstance(x, ast.Await)]
-                        if len(aw) == 1:
-                            check_handler_loop(c, u, g, lp, aw[0], 'await task')
+        check_handler_site(c, u, g, call)
     pe = c.unit(SVC, 'EventBus.process_event')
     gp = c.cfg(pe)
     for n in gp.live_nodes():
